@@ -138,14 +138,79 @@ PROPS["C08"] = {
     "assumptions": CMD_ASSUME + ["hang verdicts use a per-case wall-clock limit four orders of magnitude above the normal case time"],
 }
 
+def caplab(binname, wq=4, wt=16, tq=900, tt=5400, name=None, args=None):
+    lane = {"name": name or binname, "pkg": "caplab", "bin": binname,
+            "workers": {"quick": wq, "thorough": wt},
+            "timeout": {"quick": tq, "thorough": tt}}
+    if args:
+        lane["args"] = args
+    return lane
+
+PROPS["C10"] = {
+    "level": "exploration",
+    "level_text": "held on N values: for both effect macros the schema traced by the real TypeGen::register_app is closed and covers every type that crosses the bridge; every Rust-built protocol value (all variants, edge values) and every effect batch / view the bridge emitted decoded under the schema with nothing left over and re-encoded to the same bytes; every schema-generated value of every container (all enum variants forced, empty and long sequences, arbitrary bytes and strings, extreme integers, nested options) was accepted by Rust's Deserialize and written back byte-identically; schema-generated events went through Bridge::process_event and came back unchanged in the view.",
+    "level_note": "the codec (harness/caplab/src/wire.rs) is written from the bincode-1 fixint format description, not from the bincode crate; floats are generated finite",
+    "technique": "independent schema-driven codec as differential oracle, both directions, plus bridge round trips",
+    "rule": "per app flavour (derive / attribute macro): Rust-built samples of every crux protocol type; N schema-generated values per container with enum variants forced round-robin; bridge effect batches for one job per capability operation; schema-generated Event::Got values through the bridge; non-trivial = value whose check completed all the way (decode + re-encode equal); distinct = hash of (type, bytes)",
+    "lanes": [caplab("wirelab", 4, 16)],
+    "floors": {"quick": {"evaluations": 20000, "distinct_nontrivial": 8000, "view_round_trips": 400, "bridge_effect_batches_decoded": 40},
+               "thorough": {"evaluations": 1000000, "distinct_nontrivial": 300000}},
+    "must_cover": {"containers": ["HttpRequest", "HttpResponse", "HttpResult", "HttpError", "HttpHeader", "KeyValueOperation", "KeyValueResult", "KeyValueResponse", "KeyValueError", "Value", "TimeRequest", "TimeResponse", "TimerId", "Instant", "Duration", "PlatformRequest", "PlatformResponse", "RenderOperation", "Request", "Effect", "Event", "ViewModel"],
+                   "effect_variants_emitted": ["Http", "KeyValue", "Platform", "Render", "Time"]},
+    "assumptions": ["serde-reflection's tracer (the same one crux's TypeGen uses) defines 'the generated schema'; the foreign-language generators of serde-generate are not executed (no Swift/Java/TS toolchain in the sandbox)"],
+}
+
+PROPS["C17"] = {
+    "level": "exploration",
+    "level_text": "held on N calls: each generated key-value call (empty / unicode / NUL / very long keys and prefixes, empty / binary / up to 1 MiB values, boundary cursors) emitted exactly one operation equal to the call's arguments, and each generated shell answer (absent vs present-empty vs present, pages, cursors, every error variant) reached the app as exactly one, unaltered outcome - through the capability API, the command API, the typed core and the bincode / JSON bridges.",
+    "level_note": "identity oracle; response kinds always match the operation (a mismatched kind is a documented developer-error panic)",
+    "technique": "identity monitor over generated calls and answers on six shells",
+    "rule": "random (operation, arguments, answer) x API x shell; non-trivial = call whose operation and outcome were both compared; distinct = hash of (job, shell, answer)",
+    "lanes": [caplab("kvlab", 4, 16)],
+    "floors": {"quick": {"evaluations": 6000, "distinct_nontrivial": 4000},
+               "thorough": {"evaluations": 1500000, "distinct_nontrivial": 800000}},
+    "must_cover": {"operations": ["Get", "Set", "Delete", "Exists", "ListKeys"], "apis": ["Legacy", "Command"],
+                   "answers": ["absent", "present-empty", "present", "exists", "keys", "Err::Io", "Err::Timeout", "Err::CursorNotFound", "Err::Other"],
+                   "shells": ["Core(derive)", "Core(attribute)", "Bridge bincode(derive)", "Bridge JSON(derive)"]},
+    "assumptions": [],
+}
+
+PROPS["C18"] = {
+    "level": "exploration",
+    "level_text": "held on N executions: EVERY sequence of the 7 timer actions (poll, shell fires, app clears, handle dropped, request dropped, clear answered, clear request dropped; late and duplicate answers arise as repeats) up to the stated length, for notify_after and notify_at, followed the per-timer reference automaton (requests sent, clear requests sent, outcomes, nothing after the outcome); random interleavings of 2-5 timers in one command did too; ids from the enumeration and from 4 concurrent threads were pairwise distinct.",
+    "level_note": "the automaton (timelab.rs `Expect`) is the statement of the property; single-timer interleavings are enumerated exhaustively up to the length bound, multi-timer ones are sampled",
+    "technique": "exhaustive action-sequence enumeration against a per-timer outcome automaton + id uniqueness ledger",
+    "rule": "all 7^k sequences for k <= 6 (quick) / 7 (thorough) x {notify_after, notify_at}; random scripts for 2-5 timers; non-trivial = sequence of length >= 2; distinct = hash of (sequence, kind)",
+    "lanes": [caplab("timelab", 8, 16)],
+    "floors": {"quick": {"evaluations": 250000, "distinct_nontrivial": 250000, "multi_timer_runs": 3000},
+               "thorough": {"evaluations": 1900000, "distinct_nontrivial": 1900000}},
+    "must_cover": {"end_classes": ["Done/Some(false)/req0clr0", "Done/Some(false)/req1clr1", "Done/Some(true)/req1clr0", "ClearPending/None/req1clr1"]},
+    "assumptions": ["response kinds match the request (an InstantArrived answer to NotifyAfter is a documented developer-error panic)"],
+}
+
+PROPS["C19"] = {
+    "level": "exploration",
+    "level_text": "held on N conversions: every conversion between the wire Duration / Instant and std / chrono types either preserved the value exactly (checked in u128 / i128 nanoseconds, the wire value read independently through serde) or rejected it explicitly (Err or panic) - and only values that really are unrepresentable in the target were rejected; includes what Time::notify_after / notify_at put on the wire.",
+    "level_note": "exact integer arithmetic oracle; inputs are boundary values of every representation (+-2) plus random values at several magnitudes",
+    "technique": "exact-arithmetic monitor over boundary and random values for 13 conversions",
+    "rule": "round-robin over 13 conversions, input from the boundary table or random; non-trivial = conversion whose result was compared; distinct = hash of (PRNG state, conversion)",
+    "lanes": [caplab("timelab", 4, 16)],
+    "floors": {"quick": {"evaluations": 150000, "distinct_nontrivial": 100000, "explicit_rejections": 10000, "exact_conversions": 50000},
+               "thorough": {"evaluations": 12000000, "distinct_nontrivial": 390000}},
+    "must_cover": {"conversions": ["std::time::Duration->Duration", "chrono::TimeDelta->Duration", "Duration->chrono::TimeDelta", "Instant->SystemTime", "SystemTime->Instant", "Instant->chrono::DateTime", "chrono::DateTime->Instant", "Instant::new", "Duration::from_millis", "Duration::from_secs"]},
+    "assumptions": [],
+}
+
 ENGINES = [
     {"name": "cmdlab", "path": "harness/cmdlab", "serves_properties": ["C01", "C02", "C03", "C04", "C05", "C06", "C07", "C09"],
      "kind_free_text": "random program generator + executable reference model of command semantics + hosts (direct, stream-polled, nested, Core, legacy, bincode/JSON bridge) run in lock-step on the real crux code"},
     {"name": "schedlab", "path": "harness/schedlab", "serves_properties": ["C08"],
      "kind_free_text": "thread-schedule controller installed through the crux_verif hook points (record / forced single preemption / random yields) + stress lanes for ThreadSanitizer and Miri; oracle = cmdlab model over commuting operations"},
+    {"name": "caplab", "path": "harness/caplab", "serves_properties": ["C10", "C11", "C13", "C14", "C15", "C16", "C17", "C18", "C19"],
+     "kind_free_text": "capability lab app (http, kv, time, platform, render through both effect macros and both APIs) with job/outcome protocol; bins: wirelab (schema codec), httplab, kvlab, timelab ..."},
 ]
 
 NOT_APPLICABLE = [
     {"property_id": p, "reason": "check not built yet in this session (see DESIGN.md); to be claimed once its engine exists"}
-    for p in ["C10", "C11", "C12", "C13", "C14", "C15", "C16", "C17", "C18", "C19", "C20"]
+    for p in ["C11", "C12", "C13", "C14", "C15", "C16", "C20"]
 ]
